@@ -51,6 +51,13 @@ impl IPFix {
 //@       lemma_sub_sub2(b, 14, b.len() as int, length as int, b.len() - 14);
 //@   }
 //@   ensures: ipfix_message_post(*old(parser), *final(parser), orig_i, r)
+//@   ensures: r is Ok ==> is_suffix(r->Ok_0.0@, orig_i@)
+//@ end
+//@ fn expanded variable_versions::ipfix /impl<'nom> IPFix/ parse
+//@   result: r
+//@   generics: <'nom>
+//@   ensures: ipfix_message_post(*old(parser), *final(parser), orig_i, r)
+//@   ensures: r is Ok ==> is_suffix(r->Ok_0.0@, orig_i@)
 //@ end
 }
 } // verus!
